@@ -32,7 +32,8 @@
    ` J:ok|bad` (jmpi to each label address obtained with laddr reaches the label: the value returned is the one
    the bodies prescribe, see expected_ret) ` LR idx:ok|bad`
    (each lref item holds label address + disp, or the label difference + disp, against the laddr
-   addresses of the same engine, read after g was prepared for execution).  On an error: `E:<code>`. */
+   addresses of the same engine, read after g was prepared for execution) ` LA:ok` (constant here; the model driver
+   replaces it by its verdict on the raw laddr values W<k>).  On an error: `E:<code>`. */
 #include <stdio.h>
 #include <stdlib.h>
 #include <string.h>
@@ -673,6 +674,7 @@ static void run_case (char *line) {
     if (items[i].it != NULL && items[i].it->addr != NULL) printf (" %d:%llx", i, (unsigned long long) items[i].it->addr);
   if (have_g >= 0) {
     for (int k = 0; k < gnlab; k++) printf (" L%d:%llx", k, (unsigned long long) ltv[k]);
+    for (int k = 0; k < gnlab; k++) printf (" W%d:%llx", k, (unsigned long long) lraw[k]); /* what laddr gave, as is */
     for (int i = 0; i < nitems; i++)
       if (items[i].k == K_LREF) printf (" K%d:%llx:%llx", i, (unsigned long long) ka1[i], (unsigned long long) ka2[i]);
   }
@@ -720,6 +722,10 @@ static void run_case (char *line) {
       else
         printf (" %d:ok", i);
     }
+    /* LA: the model of label addresses (coq/C14/Labels.v: a label emits no code, so adjacent labels -- and a label and
+       its last_label -- have one address) against what laddr gave; judged by the model driver from the W tokens for
+       the engines that put no alignment padding between labels */
+    printf (" LA:ok");
   }
   printf ("\n");
   if (gen_inited) MIR_gen_finish (ctx);
